@@ -10,6 +10,7 @@ mod ng;
 mod parse;
 mod syntax;
 mod sem;
+mod server;
 mod util;
 
 fn main() {
@@ -26,6 +27,7 @@ fn main() {
         "frontend" => frontend::main(&args[2..]),
         "iter" => iter::main(&args[2..]),
         "ng" => ng::main(&args[2..]),
+        "server" => server::main(&args[2..]),
         "cli" => cli::main(&args[2..]),
         "compile" => compile::main_compile(&args[2..]),
         "meta" => compile::main_meta(&args[2..]),
